@@ -653,3 +653,35 @@ def g9_named_list_raw_mutation(prog: Program, run: Run, rule: str) -> int:
     run.ok(rule, "package", f"no NamedItemList is mutated through an operation the class does not "
            f"override ({sorted(raw)})", "odxtools/")
     return n
+
+
+# --------------------------------------------------------------------- G10
+def g10_children_only(prog: Program, run: Run, rule: str, patterns: Sequence[str]) -> int:
+    """A parser reads the children of its own element (find / iterfind with a path). Walking ALL
+    descendants (`Element.iter(tag)`) also picks up elements of the same tag that belong to
+    nested objects -- a nested SDG is then read once as a value of its parent and once more as a
+    sibling."""
+    n = 0
+    for f in funcs_in(prog, patterns):
+        hits = [x for x in walk_no_nested(f.node) if isinstance(x, ast.Call) and isinstance(
+            x.func, ast.Attribute) and x.func.attr in ("iter", "getiterator") and
+            len(x.args) <= 1 and not x.keywords and not (
+                isinstance(x.func.value, ast.Name) and x.func.value.id in ("itertools",))]
+        # only element-like receivers: the call has a string tag argument or none at all, and the
+        # receiver is a name / attribute that is looked up with find()/iterfind() elsewhere or is
+        # called *element / *elem / *_et
+        for x in hits:
+            recv = ast.unparse(x.func.value)
+            if x.args and not (isinstance(x.args[0], ast.Constant) and isinstance(
+                    x.args[0].value, str)):
+                continue
+            if not x.args and not any(k in recv.lower() for k in ("elem", "_et", "root", "tree")):
+                continue
+            n += 1
+            run.violation(rule, f"{f.module.rel}:{f.qual}", "descendant-iteration",
+                          f"`{ast.unparse(x)}` visits every descendant with that tag, not only "
+                          "the children that belong to this object: nested elements are read a "
+                          "second time as if they were direct children",
+                          f"{f.module.rel}:{x.lineno}", ast.unparse(x))
+    run.ok(rule, "package", "no parser iterates over all descendants of its element", "odxtools/")
+    return n
